@@ -986,3 +986,57 @@ Proof.
     destruct (run P std_bladder std_uladder idp ops w') as [vs w2]. simpl in *. split; auto. constructor; simpl; auto.
 Qed.
 End WorldP.
+
+(* ---- get_id_pack may change between steps, as long as the packs of the objects that are lent do not ----
+   (the pack follows the object's current class and the class's current name; see props/C03.v, 5''') *)
+Lemma inv_change_idp P idp idp' w :
+  (forall a k o c, lookup k (ltab (get w a)) = Some (o, c) -> idp' o = idp o) ->
+  inv P idp w -> inv P idp' w.
+Proof.
+  intros H [[S1 K1] [S2 K2]]. split; (split; [assumption|]).
+  - intros k o c L. rewrite (H false k o c L). exact (K1 _ _ _ L).
+  - intros k o c L. rewrite (H true k o c L). exact (K2 _ _ _ L).
+Qed.
+
+(* ---- deliver, then operate through the result: the operation lands on the copy at the other party ---- *)
+Section DeliverP.
+Variable P : bparams.
+Variable idp : pyval -> idpack.
+Hypothesis idp_wf : forall u, wf P (pv_of_idpack (idp u)) = true.
+Hypothesis idp_ns : forall u, text_ok P (pv_of_idpack (idp u)) = true.
+Variable pk_dumps : pyval -> list byte.
+Variable pk_loads : list byte -> pyval.
+
+Lemma get_put2_neg a s r : get (put2 (negb a) s r) a = r.
+Proof. now destruct a. Qed.
+Lemma get_put2_neg' a s r : get (put2 (negb a) s r) (negb a) = s.
+Proof. now destruct a. Qed.
+
+Theorem deliver_then_mutate a v d w :
+  inv P idp w -> wf P (PBytes (pk_dumps v)) = true ->
+  let cp := pk_loads (pk_dumps v) in
+  byref (made (get w (negb a))) cp -> wf P cp = true -> text_ok P cp = true -> wf P (PInt d) = true ->
+  (forall o c, lookup (idp cp) (ltab (get w (negb a))) = Some (o, c) -> o = cp) ->
+  exists n w1 w2,
+    deliver P std_bladder std_uladder idp pk_dumps pk_loads a v w = Ok (POther (proxy_name n), w1) /\
+    mutate P std_bladder std_uladder idp a n d w1 = Ok w2 /\
+    mlog (get w2 (negb a)) = mlog (get w (negb a)) ++ [(cp, d)] /\
+    mlog (get w2 a) = mlog (get w a).
+Proof.
+  intros I Wb cp B W X Wd NC.
+  rewrite (deliver_spec P idp idp_wf idp_ns pk_dumps pk_loads a v w I Wb B W X). fold cp.
+  destruct (accept_cache (idp cp) (get w a)) as (n & rc & A1 & A2 & A3).
+  destruct (transfer_inv P idp idp_wf idp_ns (negb a) cp w I W X (held_byref _ _ B)) as (v' & w' & E & I').
+  rewrite (refs_by_reference P idp idp_wf idp_ns (negb a) cp w I B W X) in E. rewrite negb_involutive in E.
+  injection E as _ <-. rewrite A1. exists n. eexists. 
+  set (w1 := put2 (negb a) _ _) in *.
+  assert (C : lookup (idp cp) (cache (get w1 a)) = Some (n, rc)) by (unfold w1; now rewrite get_put2_neg).
+  assert (L : exists c, lookup (idp cp) (ltab (get w1 (negb a))) = Some (cp, c)).
+  { unfold w1. rewrite get_put2_neg'. cbn [ltab set_ltab]. rewrite lookup_coll_add_same.
+    destruct (lookup (idp cp) (ltab (get w (negb a)))) as [[o c]|] eqn:Lo; [rewrite (NC _ _ eq_refl)|]; eauto. }
+  destruct L as (c & L).
+  eexists. split; [reflexivity|]. split; [exact (mutation_at_owner P idp idp_wf idp_ns a n (idp cp) rc cp c d w1 I' C L Wd)|].
+  rewrite get_put2_other, get_put2_same. cbn [mlog set_mlog]. unfold w1. rewrite get_put2_neg', get_put2_neg. cbn [mlog set_ltab].
+  split; [reflexivity|]. unfold accept. destruct (lookup (idp cp) (cache (get w a))) as [[? ?]|]; reflexivity.
+Qed.
+End DeliverP.
